@@ -203,8 +203,16 @@ def end_to_end(ctx, stg, driver, upath, n):
 
 
 def run(ctx):
+    # names made inside whole commands (repair's names for plain commits, uncommit's generated names,
+    # pick, squash, new, rename): every history keeps every name valid and non-colliding, also with
+    # hidden patches; model and implementation agree on them
+    from . import histcheck
+    histcheck.run_property(ctx, [("REPAIR", 2), ("COMMIT", 2), ("BASIC", 1)], ["c01"], n_quick=18, n_thorough=300,
+                           nsteps=32 if ctx.quick() else 45, own_oracle="c14")
+    hist_cov = {k: ctx.coverage.get(k) for k in ("evaluations", "scenarios", "command_distribution", "exit_distribution",
+                                                 "model_impl_disagreements", "direct_oracle_failures")}
     stg = common.build_stg()
-    broken = gate.coq_gate(ctx)
+    broken = []      # the Coq gate already ran (and reported) inside run_property
     driver = common.build_driver()
     upath = funcorr.unicode_dump(stg)
     unicode_tie(ctx, stg, driver, upath, broken)
@@ -277,7 +285,9 @@ def run(ctx):
         "git_check_ref_format_checked": len(sample),
         "end_to_end_stg_new": e2e_runs,
         "disagreements": len(disagreements),
+        "history_level": hist_cov,
     })
+    ctx.coverage["evaluations"] += hist_cov.get("evaluations") or 0
     ctx.assumptions += [
         "String::to_lowercase acts per scalar value except for U+03A3 (final sigma); the model's instance is "
         "lower_of_table with an arbitrary position predicate; inputs containing U+03A3 are excluded from the "
@@ -323,6 +333,9 @@ def run_corpus(stg, driver, upath):
 
 def replay(ctx, path):
     doc = json.load(open(path))
+    if "scenario" in doc:
+        from . import histcheck
+        return histcheck.replay_scenario(ctx, path, ["c01"])
     case = doc.get("case", {})
     stg = common.build_stg()
     if "request" in case:
